@@ -65,6 +65,7 @@ type C03Case struct {
 
 func genC03(r *Rng) *C03Case {
 	cs := &C03Case{Cfg: genCfg(r, 0.1)}
+	cs.Cfg.apply() // Source() during generation must already use this case's delimiters
 	ne := r.Range(2, 5)
 	for i := 0; i < ne; i++ {
 		cs.Envs = append(cs.Envs, GenEnv(r.Fork(uint64(100+i)), 0, 5))
